@@ -781,6 +781,85 @@ fn child_oneoff() {
     }
 }
 
+/// Boundary names and failing include targets for the one-off entry points and the registration
+/// route: (label, resident templates, source, expected answer prefix of every entry point)
+fn oneoff2_sources() -> Vec<(String, Vec<(String, String)>, String, String)> {
+    let mut v = Vec::new();
+    let nav = vec![("nav".to_string(), "N".to_string())];
+    // blank names: a template named "" or " " does not exist, so extending / including it is a
+    // dangling reference like any other
+    for blank in ["", " ", "  ", "\t"] {
+        v.push((format!("extends blank name {blank:?}"), nav.clone(), format!("{{% extends \"{blank}\" %}}{{% block b %}}x{{% endblock %}}"), "err".to_string()));
+        v.push((format!("include blank name {blank:?}"), nav.clone(), format!("a{{% include \"{blank}\" %}}b"), "err".to_string()));
+        v.push((format!("untaken include blank name {blank:?}"), nav.clone(), format!("a{{% if false %}}{{% include \"{blank}\" %}}{{% endif %}}b"), "err".to_string()));
+    }
+    // … and when a template of that very name IS registered, the reference resolves to it
+    for blank in [" ", "  "] {
+        let res = vec![(blank.to_string(), "P{% block b %}p{% endblock %}".to_string())];
+        v.push((format!("extends registered blank name {blank:?}"), res.clone(), format!("{{% extends \"{blank}\" %}}{{% block b %}}c{{% endblock %}}"), "ok Pc".to_string()));
+        v.push((format!("include registered blank name {blank:?}"), res.clone(), format!("a{{% include \"{blank}\" %}}b"), "ok aPpb".to_string()));
+    }
+    // include targets that exist but fail while they render: the caller gets an error
+    let boom = vec![
+        ("boom".to_string(), "x{{ nosuchvar.field }}y".to_string()),
+        ("boom_outer".to_string(), "o{% include \"boom\" %}".to_string()),
+        ("th/boom_th".to_string(), "{{ nosuchvar.field }}".to_string()),
+    ];
+    for target in ["boom", "boom_outer", "boom_th"] {
+        let inc = format!("{{% include \"{target}\" %}}");
+        for (place, src) in [
+            ("top level", format!("a{inc}b")),
+            ("filter section", format!("a{{% filter upper %}}{inc}{{% endfilter %}}b")),
+            ("set block", format!("{{% set x %}}{inc}{{% endset %}}{{{{ x }}}}")),
+            ("loop", format!("{{% for i in [1, 2] %}}{inc}{{% endfor %}}")),
+        ] {
+            v.push((format!("include of failing template \"{target}\" in a {place}"), boom.clone(), src, "err".to_string()));
+        }
+    }
+    v
+}
+
+/// worker: one line per (source, entry point): `index \t entry point \t answer`
+fn child_oneoff2() {
+    let progress = std::sync::Arc::new(std::sync::atomic::AtomicU64::new(0));
+    start_watchdog(progress, 20);
+    let class = |r: Result<Result<String, tera::Error>, String>| match r {
+        Ok(Ok(s)) => format!("ok {s}"),
+        Ok(Err(e)) => canon_err(&e),
+        Err(_) => "panic".to_string(),
+    };
+    for (i, (_, resident, src, _)) in oneoff2_sources().iter().enumerate() {
+        let mk = || {
+            let mut t = engine(&["th/".to_string()]);
+            t.add_raw_templates(resident.iter().map(|(n, s)| (n.as_str(), s.as_str())).collect::<Vec<_>>()).map(|()| t)
+        };
+        let tera = match catch(std::panic::AssertUnwindSafe(mk)) {
+            Ok(Ok(t)) => t,
+            Ok(Err(e)) => {
+                println!("{i}\tresident templates\t{}", canon_err(&e));
+                continue;
+            }
+            Err(_) => {
+                println!("{i}\tresident templates\tpanic");
+                continue;
+            }
+        };
+        let r1 = class(catch(std::panic::AssertUnwindSafe(|| tera.render_str(src, &Context::new(), false))));
+        println!("{i}\trender_str\t{}", r1.replace(['\n', '\t'], " "));
+        let r2 = class(catch(std::panic::AssertUnwindSafe(|| {
+            let mut buf: Vec<u8> = Vec::new();
+            tera.render_str_to(src, &Context::new(), false, &mut buf).map(|()| String::from_utf8_lossy(&buf).to_string())
+        })));
+        println!("{i}\trender_str_to\t{}", r2.replace(['\n', '\t'], " "));
+        let r3 = class(catch(std::panic::AssertUnwindSafe(|| {
+            let mut t2 = mk()?;
+            t2.add_raw_template("one", src)?;
+            t2.render("one", &Context::new())
+        })));
+        println!("{i}\tadd_raw_template + render\t{}", r3.replace(['\n', '\t'], " "));
+    }
+}
+
 /// worker: registers the set of a JSON file and renders one template; prints one line
 fn child_render(path: &str, name: &str) {
     let c: Case = serde_json::from_str(&std::fs::read_to_string(path).expect("case file")).expect("case json");
@@ -1272,6 +1351,7 @@ fn main() {
             "reg2" => child_reg(&args[i + 2], Some(args[i + 3].parse().unwrap())),
             "dup" => child_reg(&args[i + 2], Some(usize::MAX)),
             "oneoff" => child_oneoff(),
+            "oneoff2" => child_oneoff2(),
             _ => {}
         }
         return;
@@ -1673,6 +1753,42 @@ fn main() {
         if status != "exit0" || seen != sources.len() * 4 {
             report.oracle_failures += 1;
             report.violation("property", format!("the one-off entry points did not all answer (worker {status}, {seen} of {} answers)", sources.len() * 4), serde_json::json!({"one_off": "all", "worker": status}));
+        }
+    }
+
+    // ---- 2''. boundary names (blank extends / include targets) and include targets that fail at
+    //      render time, through render_str / render_str_to / registration + render: an error (never
+    //      a panic, never an acceptance) — and the registered blank name resolves
+    {
+        let (status, out) = run_child(&["--child".into(), "oneoff2".into()], Duration::from_secs(60));
+        let sources = oneoff2_sources();
+        let mut seen = 0usize;
+        for line in out.lines() {
+            let f: Vec<&str> = line.split('\t').collect();
+            if f.len() != 3 {
+                continue;
+            }
+            let Some((label, resident, src, want)) = f[0].parse::<usize>().ok().and_then(|i| sources.get(i)) else { continue };
+            let (entry, ans) = (f[1], f[2]);
+            // render_str / render_str_to refuse every source with an extends tag
+            let want: &str = if src.starts_with("{% extends") && entry.starts_with("render_str") { "err" } else { want.as_str() };
+            seen += 1;
+            report.evaluations += 1;
+            report.oracle_checks += 1;
+            report.count(&format!("one-off.boundary.{}", if ans.starts_with("ok") { "ok" } else { "rejected" }));
+            let good = if want == "err" { ans.starts_with("err") } else { ans == want };
+            if !good {
+                report.oracle_failures += 1;
+                report.violation(
+                    "property",
+                    format!("{entry}: source `{src}` ({label}) is answered `{ans}`, expected `{want}`{}", if ans == "panic" { " — the engine panicked instead of returning an error" } else { "" }),
+                    serde_json::json!({"one_off": {"entry_point": entry, "source": src, "label": label, "resident": resident, "prefixes": ["th/"]}, "implementation": ans, "expected": want, "rerun": "harness/target/release/c11 --child oneoff2"}),
+                );
+            }
+        }
+        if status != "exit0" || seen != sources.len() * 3 {
+            report.oracle_failures += 1;
+            report.violation("property", format!("the boundary one-off family did not all answer (worker {status}, {seen} of {} answers)", sources.len() * 3), serde_json::json!({"one_off": "boundary", "worker": status}));
         }
     }
 
